@@ -45,10 +45,18 @@ EINSUMS = [('...ij,jk->...ik', lambda r: ([r.randint(1, 2), r.randint(1, 3), 2],
            ('ab,bc->ca', lambda r: ([2, 3], [3, 2], [2]))]
 
 
+EINSUM_ALT = {'...ij,jk->...ik': '...ij,jk->...ki', 'bnd,ndh->bnh': 'bnd,ndh->bhn', 'bij,jk->bik': 'bij,jk->kbi', 'nta,hab->nthb': 'nta,hab->bnht', 'ab,bc->ca': 'ab,bc->ac'}
+
+
 def gen_einsum(rng):
   eq, f = rng.choice(EINSUMS)
   xs, ks, bs = f(rng)
-  return {'layer': 'einsum', 'eq': eq, 'x': ints(rng, xs), 'kernel': ints(rng, ks), 'bias': ints(rng, bs), 'use_bias': rng.random() < 0.6}
+  c = {'layer': 'einsum', 'eq': eq, 'x': ints(rng, xs), 'kernel': ints(rng, ks), 'bias': ints(rng, bs), 'use_bias': rng.random() < 0.6}
+  if rng.random() < 0.4:
+    # the equation given at call time (it takes precedence in NNX; Linen accepts it only when the constructor has none): the module was
+    # built with another equation over the same operands that places the kernel's surviving axes elsewhere in the result
+    c['ctor_eq'] = EINSUM_ALT[eq]
+  return c
 
 
 def gen_padding(rng, nd, allow_causal=True, strings=('SAME', 'VALID', 'CIRCULAR', 'REFLECT')):
